@@ -19,6 +19,8 @@ Open Scope N_scope.
 Definition covered_op2 (o : op2) : bool :=
   match o with Op1 _ | OpSort _ | OpSortModel _ => true | _ => false end.
 Definition pending_op2 (o : op2) : bool := negb (covered_op2 o).
+Lemma coverage2 o : covered_op2 o = match o with Op1 _ | OpSort _ | OpSortModel _ => true | _ => false end.
+Proof. reflexivity. Qed.
 
 (* the client side of one call of the large alphabet *)
 Definition op2_wf (tab_el tab_en : nametab) (w : world) (o : op2) : Prop :=
